@@ -167,6 +167,8 @@ type world struct {
 	caseID    int
 	stepNo    int
 	commits   []commitRec
+	// commits made inside transactions that have not committed (still open, discarded, refused): cid -> transaction
+	hidden map[string]string
 }
 
 type commitRec struct {
@@ -260,6 +262,7 @@ func (w *world) rawView(ts *txState, label string) string {
 // after anything that must not be visible outside: every document read without a transaction equals the
 // committed state
 func (w *world) checkCommittedUntouched(why string) {
+	w.checkHiddenCommits(why)
 	all := w.queryAll(w.ctx)
 	var labels []string
 	for l := range w.docIDs {
@@ -275,6 +278,67 @@ func (w *world) checkCommittedUntouched(why string) {
 		if got != want {
 			w.out.Oracle(w.out.Lines, fmt.Sprintf("[uncommitted-visible] case %d after %s: a non-transactional query shows document %s with age %s, the committed value is %s", w.caseID, why, l, got, want))
 		}
+	}
+}
+
+// commitCids lists the commits of a document as a requester sees them
+func (w *world) commitCids(ctx context.Context, docID string) []string {
+	res := w.n.GQL(ctx, fmt.Sprintf(`query { commits(docID: "%s") { cid } }`, docID))
+	var m struct{ Commits []struct{ Cid string } }
+	if json.Unmarshal([]byte(res), &m) != nil {
+		return nil
+	}
+	var out []string
+	for _, c := range m.Commits {
+		out = append(out, c.Cid)
+	}
+	return out
+}
+
+// noteHiddenCommits: the commits of the document that the transaction sees and a requester outside does not
+func (w *world) noteHiddenCommits(tid string, ctx context.Context, label string) {
+	id, ok := w.docIDs[label]
+	if !ok {
+		return
+	}
+	public := map[string]bool{}
+	for _, c := range w.commitCids(w.ctx, id) {
+		public[c] = true
+	}
+	if w.hidden == nil {
+		w.hidden = map[string]string{}
+	}
+	for _, c := range w.commitCids(ctx, id) {
+		if !public[c] {
+			w.hidden[c] = tid + " " + id
+		}
+	}
+}
+
+// checkHiddenCommits: a commit made by a transaction that has not committed cannot be addressed from outside, neither
+// in the history nor by a read at that commit
+func (w *world) checkHiddenCommits(why string) {
+	n := 0
+	for c, tid := range w.hidden {
+		if n++; n > 6 {
+			break
+		}
+		res := w.n.GQL(w.ctx, fmt.Sprintf(`query { commits(cid: "%s") { cid docID } }`, c))
+		// commits are content-addressed: another transaction that made the same write on the same heads and did commit
+		// made this very commit public
+		public := false
+		for _, pc := range w.commitCids(w.ctx, strings.Fields(tid)[1]) {
+			public = public || pc == c
+		}
+		if public {
+			delete(w.hidden, c)
+			continue
+		}
+		tid = strings.Fields(tid)[0]
+		if !strings.HasPrefix(res, "error") && strings.Contains(res, c) {
+			w.out.Oracle(w.out.Lines, fmt.Sprintf("[uncommitted-visible] case %d after %s: commit %s, made inside transaction %s which has not committed, is returned to a request outside the transaction: %s", w.caseID, why, c, tid, res))
+		}
+		w.out.Count("hidden-commit-probes")
 	}
 }
 
@@ -402,6 +466,7 @@ func (w *world) exec(op string) {
 		if ts != nil {
 			ts.writes[label] = age
 			ts.wrote[label] = true
+			w.noteHiddenCommits(t[1], ctx, label)
 			w.out.Emit(op, "ok")
 			w.checkCommittedUntouched(op)
 		} else {
@@ -514,6 +579,11 @@ func (w *world) exec(op string) {
 		w.out.Emit(op+" "+res, res)
 		w.out.Count("api-commit:" + res)
 		if res == "ok" {
+			for c, id := range w.hidden {
+				if strings.Fields(id)[0] == t[1] {
+					delete(w.hidden, c) // public now
+				}
+			}
 			for k, v := range ts.writes {
 				w.committed[k] = v
 			}
